@@ -18,13 +18,14 @@ LEVEL_NOTE = 'trusted: vlib/oracles/ref.py, vlib/sim.py shim log'
 TIMEOUT = {'quick': 1500, 'thorough': 12000}
 
 from vlib.runner import config_name
-Q_CONFIGS = [(3, 1, False), (3, 1, True), (4, 1, True), (5, 2, False), (5, 2, True), (5, 1, False), (7, 3, True), (6, 2, True)]
+Q_CONFIGS = [(3, 1, False), (3, 1, True), (4, 1, True), (5, 2, False), (5, 2, True), (5, 1, False), (7, 3, True), (6, 2, True), (3, 0, True), (5, 1, True)]
 
 
 def shards(tier, seed):
     from vlib.runner import ALL_CONFIGS
     cfgs = Q_CONFIGS if tier == 'quick' else [c for c in ALL_CONFIGS if c[1] >= 1]
     return [{'name': config_name(c), 'cfg': list(c), 'programs': {3: 30, 4: 24, 5: 16, 6: 8, 7: 6}[c[0]] * (2 if tier == 'quick' else 8)} for c in cfgs]
+
 
 
 def binom_tail_ge(n, k, p):
